@@ -50,6 +50,9 @@ func weightsFor(profile string) map[string]int {
 		}
 		base["cancel_pair"] = 5
 		base["batch_race"] = 7
+		if profile == "C12" || profile == "C04" {
+			base["expiry_edge"] = 4
+		}
 		if profile == "C13" || profile == "C04" {
 			base["timeout_inversion"] = 4
 		}
@@ -437,6 +440,26 @@ func (g *Gen) Step() {
 		g.oracleRound()
 	case "holders_split":
 		g.holdersSplit()
+	case "expiry_edge":
+		// a transfer requested in an even block (so that the next, odd block does not batch it) meets a block whose
+		// time is the first whole second after created + timeout - and one that is the last whole second before it
+		t := g.token()
+		if (w.N().Height+1)%2 == 1 {
+			g.emit(Intent{T: "block", Dt: 5, N: 1})
+		}
+		funds := bigOf(w.Cfg.UserFunds)
+		g.emit(Intent{T: "user_send", U: g.R.Intn(len(w.Users)), Chain: t.Chain, Denom: t.Denom, Amt: g.amount(new(big.Int).Quo(funds, big.NewInt(100))), Fee: g.fee()})
+		g.emit(Intent{T: "block", Dt: 5, N: 1})
+		secs := int((w.Cfg.OutgoingTxTimeoutMs + 999) / 1000)
+		if w.Cfg.OutgoingTxTimeoutMs%1000 == 0 {
+			secs++ // expiry is strict: exactly at created + timeout nothing is due yet
+		}
+		if g.R.Intn(3) == 0 {
+			secs-- // the last block before the deadline: nothing may expire
+		}
+		g.emit(Intent{T: "block", Dt: secs, N: 1})
+		g.emit(Intent{T: "block", Dt: 5, N: 1})
+		w.St.Probe("expiry-edge-scenario")
 	case "phantom_orch":
 		// a registration naming a funded stranger as orchestrator is rolled back with its transaction; the stranger
 		// then reports events, and a validator's claims in a failed transaction are followed by its real ones
